@@ -1,6 +1,7 @@
 package main
 
 import (
+	"strconv"
 	"fmt"
 	"go/types"
 	"strings"
@@ -165,6 +166,36 @@ func genFunction(ld *Loader, specs *Specs, fn *ssa.Function, ct *Contract, opts 
 		for _, nc := range ct.NoCalls {
 			// always present (so the baseline tracks it); the per-call-site obligations above carry the failures
 			e.oblige(&Obl{Name: fmt.Sprintf("%s#nocall:%s", tr.label, nc.Label), Kind: "nocall", Props: nc.Props, Cond: tTrue, Goal: tTrue, Pos: nc.Where, Fn: tr.label})
+		}
+		for _, cc := range ct.CallCounts {
+			// structural: the number of call sites of a callee in this function is fixed by the contract
+			fs := strings.Fields(cc.Src)
+			want, _ := strconv.Atoi(fs[0])
+			n := 0
+			if len(fs) == 2 {
+				for _, b := range fn.Blocks {
+					for _, in := range b.Instrs {
+						if c, ok := in.(ssa.CallInstruction); ok {
+							k := ""
+							cm := c.Common()
+							if cm.IsInvoke() {
+								k = ifaceMethodKey(cm.Value.Type(), cm.Method.Name())
+							} else if sc := cm.StaticCallee(); sc != nil {
+								k = sc.String()
+							}
+							if k != "" && strings.HasSuffix(k, fs[1]) {
+								n++
+							}
+						}
+					}
+				}
+			}
+			goal := tFalse
+			if n == want {
+				goal = tTrue
+			}
+			e.oblige(&Obl{Name: fmt.Sprintf("%s#callcount:%s", tr.label, cc.Label), Kind: "nocall", Props: cc.Props, Cond: tTrue, Goal: goal, Pos: cc.Where, Fn: tr.label,
+				Values: []NamedTerm{{fmt.Sprintf("call sites found: %d, contract says %d", n, want), tTrue}}})
 		}
 		// an in-body assert that matches no call site asserts nothing: that is a broken contract, not a pass
 		for _, as := range ct.Asserts {
